@@ -281,6 +281,27 @@ def one(ck, cls):
                         ct_ = F.fns[x["fn"]]
                         if any(strip_tmpl(c_.get("callee") or "").split("::")[-1] == "unlock" for c_ in ct_.calls()):
                             free = [g.site_of(x) or True]
+            # a condition-variable wait gives the mutex away while it sleeps (QWaitCondition::wait(&m), std::condition_variable::wait(lock))
+            cvw = [x for x in walk(loop.get("body") or {}) if isinstance(x, dict) and x.get("k") == "call" and strip_tmpl(x.get("callee") or "") in
+                   ("QWaitCondition::wait", "std::condition_variable::wait", "std::condition_variable_any::wait", "std::condition_variable::wait_for", "std::condition_variable_any::wait_for")]
+            if cvw and not free:
+                free = [g.site_of(cvw[0]) or True]
+            if cvw:
+                # several stops can sleep on the condition at the same time (the aboutToQuit hook on the main thread and an explicit resetOwnThread() on
+                # another): each of them has to be woken when the backlog is empty
+                cv = skip_copies(cvw[0].get("obj") or {})
+                cvname = strip_tmpl(cv.get("name") or "") if isinstance(cv, dict) else ""
+                wakes = [(f_, c_) for f_, c_ in F.callers_of(lambda n_: n_.get("k") == "call" and strip_tmpl(n_.get("callee") or "") in ("QWaitCondition::wakeOne", "QWaitCondition::wakeAll", "QWaitCondition::notify_one",
+                                                                                                                                          "QWaitCondition::notify_all", "std::condition_variable::notify_one", "std::condition_variable::notify_all"))
+                         if strip_tmpl((skip_copies(c_.get("obj") or {}) or {}).get("name") or "") == cvname]
+                ones = [(f_, c_) for f_, c_ in wakes if strip_tmpl(c_.get("callee") or "").split("::")[-1] in ("wakeOne", "notify_one")]
+                timed = len([a_ for a_ in cvw[0].get("args", []) if a_.get("k") != "defaultarg"]) >= 2
+                if ones and not timed:
+                    ck.ob("C04-O6", sitestr(ones[0][0], ones[0][1]), False, "%s: the drain wait sleeps on %s and the worker wakes ONE sleeper when the backlog is empty: with two overlapping stops (the application-quit hook "
+                          "and an explicit resetOwnThread() on another thread) one is woken and finishes, the other sleeps forever - the stop never returns" % (tag, cvname.split("::")[-1] or "a condition variable"),
+                          key="resetOwnThread|wake-one")
+                elif not wakes:
+                    ck.ob("C04-O6", sitestr(rs, cvw[0]), None if timed else False, "%s: nothing in the library wakes the condition the drain loop sleeps on" % tag, key="resetOwnThread|wake-one")
             ck.ob("C04-O6", sitestr(rs, loop["cond"]), bool(free), "%s: the hand-off mutex is released inside every iteration of the drain loop" % tag if free else
                   "%s: the drain loop waits for the pending count with the hand-off mutex held all the time: a handler that logs through the same logger while the worker delivers a backlog message "
                   "blocks in process() on the worker thread, its message stays pending, the count never reaches 0 and the stop never returns" % tag, key="resetOwnThread|drain-holds-mutex")
